@@ -1325,25 +1325,29 @@ class Session:
         if self.sc or self.connection.transport == PhysicalTransport.BR_EDR:
             keys.ltk = PairingKeys.Key(value=self.ltk, authenticated=authenticated)
         else:
-            our_ltk_key = PairingKeys.Key(
-                value=self.ltk,
-                authenticated=authenticated,
-                ediv=self.ltk_ediv,
-                rand=self.ltk_rand,
-            )
-            if not self.peer_ltk:
-                logger.error("peer_ltk is None")
-            peer_ltk_key = PairingKeys.Key(
-                value=self.peer_ltk or b'',
-                authenticated=authenticated,
-                ediv=self.peer_ediv,
-                rand=self.peer_rand,
-            )
             # Whatever our role during pairing: when we are the central of a later
             # connection we use the key distributed by the peer, and when we are the
             # peripheral we answer with the key we distributed ourselves.
-            keys.ltk_central = peer_ltk_key
-            keys.ltk_peripheral = our_ltk_key
+            # Only keys that were really exchanged are stored.
+            if self.peer_ltk:
+                keys.ltk_central = PairingKeys.Key(
+                    value=self.peer_ltk,
+                    authenticated=authenticated,
+                    ediv=self.peer_ediv,
+                    rand=self.peer_rand,
+                )
+            our_key_distribution = (
+                self.initiator_key_distribution
+                if self.is_initiator
+                else self.responder_key_distribution
+            )
+            if our_key_distribution & KeyDistribution.ENC_KEY:
+                keys.ltk_peripheral = PairingKeys.Key(
+                    value=self.ltk,
+                    authenticated=authenticated,
+                    ediv=self.ltk_ediv,
+                    rand=self.ltk_rand,
+                )
         if self.peer_identity_resolving_key is not None:
             keys.irk = PairingKeys.Key(
                 value=self.peer_identity_resolving_key, authenticated=authenticated
